@@ -56,11 +56,56 @@ PROPS["C06"] = {
 }
 PROPS["C07"] = {
     "claimed": False, "level_text": "tbd", "level_note": "tbd",
-    "runs": codec_runs("ZzC07", quick={"*": {"P": 5}}, thorough={"*": {}}),
+    "runs": codec_runs("ZzC07", quick={"*": {"P": 5}, "rtpvp9": {"P": 14, "MHI": 13}, "rtpklv": {"P": 20, "MHI": 18}}, thorough={"*": {}}),
 }
 PROPS["C08"] = {
     "claimed": False, "level_text": "tbd", "level_note": "tbd",
-    "runs": codec_runs("ZzC08", "Hist", extra_entries={"rtpklv": ["ZzC08KLVInd"], "rtpfragmented": ["ZzC08FragmentedInd"]}),
+    "runs": codec_runs("ZzC08", "Hist", quick={"*": {}, "rtpvp9": {"K": 2, "P": 5}}, thorough={"*": {"K": 3}, "rtpvp9": {"K": 2, "P": 8}},
+                       extra_entries={"rtpklv": ["ZzC08KLVInd"], "rtpfragmented": ["ZzC08FragmentedInd"]}),
+}
+
+# ---------------------------------------------------------------- C14
+PROPS["C14"] = {
+    "level_text": "One inductive step of the real reorder buffer (ProcessPacket2 / reorder) from EVERY pre-state satisfying the representation invariant: last delivered sequence number, packet sequence number and all counters are free 16/64-bit variables (so every wrap position is covered at once), every occupancy pattern of the buffer and every restart-counter value is explored, for buffer sizes 1,2,4 (quick) and 8 (thorough). The post-state and the returned packets are compared with a reference receiver written in the harness: strictly increasing delivery modulo 2^16, no duplicates, displaced packets inside the window are buffered not dropped, lost = skipped sequence numbers, counters, cycle counting, restart after B+1 old packets, invariant re-established. Because the invariant is inductive, the step result covers arrival histories of any length. Reliable mode and the receiver-report assembly (extended highest sequence number, 24-bit clamp, fraction) are separate obligations over all 16/32/64-bit values.",
+    "level_note": "Trusted: the engine's SSA semantics (native replay of every counterexample, must-fail twins), the representation invariant written in the harness (a too-weak invariant shows up as a counterexample that does not replay through the public API). Not covered: jitter (floating point, not in the property), the RTCP ticker goroutine, buffer sizes above 8.",
+    "runs": [
+        R("reorder-B%d" % b, "pkg/rtpreceiver", "pkg/rtpreceiver", ["ZzC14Step"], params={"B": b}, flags={"workers": 8},
+          tiers=("quick", "thorough") if b <= 4 else ("thorough",)) for b in (1, 2, 4, 8)
+    ] + [R("reliable+report", "pkg/rtpreceiver", "pkg/rtpreceiver", ["ZzC14Reliable", "ZzC14Report"], flags={"workers": 4})],
+    "parallel": 3,
+    "assumptions": ["counters below 2^62 (no 64-bit counter overflow within a session)"],
+    "outside_claim": ["jitter computation", "report ticker goroutine", "buffer sizes > 8", "multi-step histories are covered through the inductive invariant, not enumerated"],
+}
+
+# ---------------------------------------------------------------- C15
+_RATES = [8000, 16000, 44100, 48000, 90000]
+PROPS["C15"] = {
+    "level_text": "Pure arithmetic obligations on the real code: (1) globalDecoderTrackData.decode is the 64-bit continuation of the 32-bit RTP timestamp for K=4 (quick) / 8 (thorough) arbitrary steps |step|<2^31 from any start; (2) multiplyAndDivide(v,m,d) equals floor(v*m/d) by its 128-bit defining property for all 0<=v<2^62 whose result fits int63, for every pair of clock rates in use and 10^9; (3) GlobalDecoder.Decode places a later track at startPTS*rate/leadRate+elapsed*rate/1e9 (all instants, rates from the set); (4) ntp.Decode(ntp.Encode(t)) is within 1 ns of t for every nanosecond of NTP era 0 after 1970; (5) Receiver.packetNTPUnsafe adds exactly trunc(delta*1e9/rate) for every signed 32-bit delta with no 64-bit overflow. Multiplication/division kernels are decided by cvc5 with the bit-vector-as-integer encoding; floating point by the ideal-arithmetic over-approximation (fpreal.go).",
+    "level_note": "Trusted: IEEE-754 round-to-nearest error bound 2^-53 per operation for normal non-overflowing results (the float64 abstraction), contract-level model of time.Time.Add/Sub on wall-clock instants (exact within |d|<2^62, |sec difference|<2^33), cvc5 1.0.3's integer encoding. Not covered: arbitrary clock rates outside the listed set, rtpsender.Sender.report's float64->uint32 conversion (implementation-defined when out of range), NTP era roll-over in 2036.",
+    "runs": [
+        R("continuation", "pkg/rtptime", "pkg/rtptime", ["ZzC15Continuation"], flags={"workers": 2}, quick_params={"K": 4}, thorough_params={"K": 8}),
+    ] + [
+        R("muldiv-%d-%d" % (m, d), "pkg/rtptime", "pkg/rtptime", ["ZzC15MulDiv"], params={"M": m, "D": d},
+          flags={"solver": "cvc5-int", "workers": 1, "qtimeout": 120000},
+          tiers=("quick", "thorough") if (m, d) in [(90000, 1000000000), (48000, 90000), (90000, 48000), (8000, 1000000000), (44100, 90000)] else ("thorough",))
+        for m in _RATES for d in _RATES + [1000000000] if m != d
+    ] + [
+        R("latertrack-%d-%d" % (a, b), "pkg/rtptime", "pkg/rtptime", ["ZzC15LaterTrack"], params={"R1": a, "R2": b},
+          flags={"solver": "cvc5-int", "workers": 2, "qtimeout": 120000},
+          tiers=("quick", "thorough") if (a, b) == (90000, 48000) else ("thorough",))
+        for (a, b) in [(90000, 48000), (48000, 90000), (90000, 8000), (44100, 90000)]
+    ] + [
+        R("ntp-roundtrip", "pkg/ntp", "pkg/ntp", ["ZzC15NTPRoundTrip"], flags={"solver": "cvc5-int", "fpreal": True, "workers": 2, "qtimeout": 300000}),
+    ] + [
+        R("packetntp-%d" % r, "pkg/rtpreceiver", "pkg/rtpreceiver", ["ZzC15PacketNTP"], params={"RATE": r},
+          flags={"solver": "cvc5-int", "workers": 2, "qtimeout": 120000},
+          tiers=("quick", "thorough") if r in (90000, 8000) else ("thorough",))
+        for r in _RATES
+    ],
+    "parallel": 6,
+    "assumptions": ["float64 operations: |result - exact| <= M*2^-53 with M a sound magnitude bound (IEEE-754 RNE, normal range)",
+                    "time.Time.Add/Sub on wall-clock instants modelled by their defining linear constraint"],
+    "outside_claim": ["clock rates outside {8000,16000,44100,48000,90000}", "Sender.report float->uint32 conversion", "instants after 2036-02-07 (NTP era 1)", "interleavings of packets and sender reports under real goroutines"],
 }
 
 NOT_APPLICABLE = {
